@@ -111,11 +111,11 @@ func c13Occurrence(c *vrep.Ctx) {
 		sep  string
 	}{{"none", nil, " "}, {"FlattenWhitespace", []NormalizeFunc{FlattenWhitespace}, " \n  "}}
 	ts := []float64{0.5, 0.8, 1}
-	c.R.Rule = fmt.Sprintf("ALL known-value sets over tokens {a,b,c,','}: every single value of 1..%d tokens, every pair of values of 1..%d tokens (none inside another; second value absent, or both present: separated by an unrelated token, by one blank, glued, or overlapping) and long values of 40/80 tokens, alone or next to a registered near-duplicate (one character of one token changed, 40/80/400 tokens, its name sorting before or after) and values with leading / trailing white space (blank, line break, two blanks) x ALL unknowns pre+K+post with pre/post of 0..%d tokens over {x,y,a} containing exactly one occurrence of K (family 'glued' attaches word or punctuation context without a blank: glued punctuation leaves the copy token aligned and is demanded exactly, glued letters are the recorded finding) x normaliser lists {none, FlattenWhitespace with multi-blank separators} x thresholds %v; MultipleMatch must report K with Confidence 1.0 and Offset/Extent of exactly that copy, NearestMatch(K) = (K, 1.0), all confidences in (0,1], all ranges inside the normalised unknown; library goroutines run as modelled threads (default schedule); non-trivial = distinct (value set, unknown, normaliser, threshold) cases", maxTok, pairTok, maxCtx, ts)
+	c.R.Rule = fmt.Sprintf("ALL known-value sets over tokens {a,b,c,','}: every single value of 1..%d tokens, every pair of values of 1..%d tokens (none inside another; second value absent, or both present: separated by an unrelated token, by one blank, glued, or overlapping) and long values of 40/80 tokens and of EVERY length 1..128, alone or next to a registered near-duplicate (one character of one token changed, 40/80/400 tokens, its name sorting before or after) and values with leading / trailing white space (blank, line break, two blanks) x ALL unknowns pre+K+post with pre/post of 0..%d tokens over {x,y,a} containing exactly one occurrence of K (family 'glued' attaches word or punctuation context without a blank: glued punctuation leaves the copy token aligned and is demanded exactly, glued letters are the recorded finding) x normaliser lists {none, FlattenWhitespace with multi-blank separators} x thresholds %v; MultipleMatch must report K with Confidence 1.0 and Offset/Extent of exactly that copy, NearestMatch(K) = (K, 1.0), all confidences in (0,1], all ranges inside the normalised unknown; library goroutines run as modelled threads (default schedule); non-trivial = distinct (value set, unknown, normaliser, threshold) cases", maxTok, pairTok, maxCtx, ts)
 	c.Bound("max_value_tokens", maxTok)
 	c.Bound("max_context_tokens", maxCtx)
 	body := func(r *vx.Run) {
-		fam := r.Choose(7, "family") // 0 single value, 1 pair (second value absent), 2 glued context, 3 both values present, 4 long value, 5 long value + registered near-duplicate, 6 value with leading/trailing white space
+		fam := r.Choose(8, "family") // 0 single value, 1 pair (second value absent), 2 glued context, 3 both values present, 4 long value, 5 long value + registered near-duplicate, 6 value with leading/trailing white space
 		lead, trail := "", ""
 		join := 0
 		name2 := "K2"
@@ -142,6 +142,13 @@ func c13Occurrence(c *vrep.Ctx) {
 			// long values (40 / 80 tokens) from a short pattern rotated through the alphabet
 			pat := small[r.Choose(len(small), "pattern")]
 			n := []int{40, 80}[r.Choose(2, "length")]
+			for i := 0; i < n; i++ {
+				k1.toks = append(k1.toks, pat.toks[i%len(pat.toks)]+alpha[(i/len(pat.toks))%2])
+			}
+		case 7:
+			// EVERY length 1..128 tokens (ratios of token counts go through floating point: n*(1/n), n/n)
+			pat := small[r.Choose(3, "pattern")]
+			n := 1 + r.Choose(128, "length")
 			for i := 0; i < n; i++ {
 				k1.toks = append(k1.toks, pat.toks[i%len(pat.toks)]+alpha[(i/len(pat.toks))%2])
 			}
